@@ -183,6 +183,9 @@ SOL_CasesQuick == Sol0 \cup Sol1(TRUE) \cup {c \in Sol2 : c.tu = "L"} \cup SolSt
 SOL_Cases == Sol0 \cup Sol1(FALSE) \cup Sol2 \cup SolStock \cup Sol3
 FR(src, solute, solvent, fx, y, nu, du, tu) ==
   [src |-> src, n |-> "o", solute |-> solute, solvent |-> solvent, fx |-> fx, y |-> y, nu |-> nu, du |-> du, tu |-> tu]
+\* the stock's own concentration is a concentration the stock can reach: part of the stock and no solvent (a plain aliquot)
+SOL_FromAliquot == {FR(src, "N", "W", fx, Zero, nu, du, tu) :
+                      src \in {"k1", "k2", "k3"}, fx \in {R(1, 4), R(1, 2)}, nu \in {"mol", "g", "L"}, du \in DenUnits, tu \in DenUnits}
 SOL_From(quick) ==
   {FR(src, "N", "W", fx, y, nu, du, tu) :
       src \in {"k1", "k2", "k3"}, fx \in (IF quick THEN {R(1, 2), R(3, 2)} ELSE {R(1, 4), R(1, 2), One, R(3, 2)}),
@@ -200,13 +203,13 @@ SOL_From(quick) ==
   \cup {FR("v", "N", "W", R(1, 2), I(2), "mol", "L", "L")}     \* the source does not contain the solute
   \* a high dilution (1:80): a small fraction of the stock in much solvent - the two volumes fall into different prefix ranges
   \cup {FR("k1", "N", "W", R(1, 320), I(4), nu, "L", "L") : nu \in {"mol", "g"}}
-SOL_FromQuick == SOL_From(TRUE)
+SOL_FromQuick == SOL_From(TRUE) \cup SOL_FromAliquot
 \* SOL2: a container that has been a solvent, then changes its composition, then is a solvent again (what create_solution
 \* derives from a solvent container - effective molar mass, density - belongs to that composition only): depth 3
 SOL2_Forms == <<F4("z", "-", "v", "-")>>
 SOL2_Cases == {SC(<<"N">>, "v", <<One>>, I(6), given, <<nu>>, <<du>>, <<"g">>, "L") :
                  given \in {"cq", "ct", "qt"}, nu \in {"mol", "g"}, du \in {"L", "g"}}
-SOL_FromFull == SOL_From(FALSE)
+SOL_FromFull == SOL_From(FALSE) \cup SOL_FromAliquot
 
 (***************************************************************************)
 (* DUP: two DIFFERENT plates that carry the same display name (replicates, *)
